@@ -863,31 +863,35 @@ def _cm_map_degree_history(chk):
 
     def th():
         import itertools
-        for hist in itertools.product((3, 4, 5), repeat=3):
-            cm = _Obj(degree=hist[0])
+        for hist in itertools.product(((3, "q3"), (4, "q3"), (3, "p3"), (4, "q2")), repeat=3):
+            cm = _Obj(degree=hist[0][0])
             dom = _Obj(_energy=0.3, _center_manifold=cm, _last_map=None)
-            gen_log = []
+            gen_cfg = {"section_coord": "q3"}
 
-            def generate(domain_obj, options, gen_log=gen_log):
+            def generate(domain_obj, options, gen_cfg=gen_cfg):
                 d = domain_obj._center_manifold.degree
-                gen_log.append(d)
-                return _Obj(points=_np.array([[float(d), 0.0]]), states=_np.zeros((1, 4)), times=_np.array([0.0]), labels=("q2", "p2"))
+                code = float(d) + 10.0 * {"q3": 1, "p3": 2, "q2": 3, "p2": 4}[gen_cfg["section_coord"]]
+                return _Obj(points=_np.array([[code, 0.0]]), states=_np.zeros((1, 4)), times=_np.array([0.0]), labels=("a", "b"))
             svc = real_self(mp._CenterManifoldMapDynamicsService, _energy=0.3, _center_manifold=cm,
                             _map_options=_Obj(to_dict=lambda: {"n_iter": 2}))
             mp._MapDynamicsServiceBase.__init__(svc, dom)
-            svc._generator = _Obj(update_config=lambda **k: None, generate=generate)
+            svc._generator = _Obj(update_config=lambda **k: gen_cfg.update(k), generate=generate)
             svc._section_coord = None
             seen = []
-            for d in hist:
+            for d, sec in hist:
                 cm.degree = d
-                r = mp._CenterManifoldMapDynamicsService.compute(svc, section_coord="q3")
+                r = mp._CenterManifoldMapDynamicsService.compute(svc, section_coord=sec)
                 seen.append(float(_np.asarray(r.points)[0][0]))
-            if seen != [float(d) for d in hist]:
-                raise Refuted("centre-manifold map: after the degree of the shared centre manifold changes, compute() returns the "
-                              "map of another degree", f"degree history {list(hist)}: maps returned were computed at degrees {seen}",
-                              replay=_REPLAY_CM_MAP_DEGREE, inputs={"degree_history": list(hist)})
-    chk.obl("centre-manifold map compute(): over all degree histories of length 3 of the shared centre manifold the returned "
-            "map is the one computed at the current degree", "K2 postconditions (closed histories, bounded-exhaustive)",
+            want = [float(d) + 10.0 * {"q3": 1, "p3": 2, "q2": 3, "p2": 4}[sec] for d, sec in hist]
+            if seen != want:
+                dec = lambda c: (int(c) % 10, {1: "q3", 2: "p3", 3: "q2", 4: "p2"}[int(c) // 10])
+                raise Refuted("centre-manifold map: compute() returns the map of another request (degree of the shared centre "
+                              "manifold / section coordinate)", f"request history (degree, section) {list(hist)}: the maps returned "
+                              f"were computed for {[dec(c) for c in seen]}",
+                              replay=_REPLAY_CM_MAP_DEGREE, inputs={"history": [list(h) for h in hist]})
+    chk.obl("centre-manifold map compute(): over all histories of length 3 of (degree of the shared centre manifold, section "
+            "coordinate) the returned map is the one computed for the current request",
+            "K2 postconditions (closed histories, bounded-exhaustive)",
             ["hiten.algorithms.types.services.maps:_CenterManifoldMapDynamicsService.compute"], "B4 exact evaluation", th)
 
 
